@@ -18,7 +18,13 @@ Correspondence (all against the REAL code in $VERIF_REPO, nothing copied):
      decompression are compared; stand-in zlib: the same bytes and the same cutting on both sides)
   D  the real client._main up to its first runonce, on the real ssh.connect with scripted socket
      I/O: order of pipe writes / queued frames / sync verification vs the model's client_startup
-  E  stdout of the really bootstrapped real server starts with the model's server_sync."""
+  E  stdout of the really bootstrapped real server starts with the model's server_sync.
+  F  -r given: the argv the REAL ssh.connect builds (rhostport, --python, --ssh-cmd, --no-cmd-delimiter, --remote-shell) is
+     started for real on a stand-in `ssh`/`sshpass` whose remote side hands the joined command string to a REAL login
+     shell (dash and bash) on hosts holding python3+python / one of them / a python3 whose -V fails / none; observed: which
+     interpreter the shells start and with which argv (must be -c + the bootstrap program, unchanged); cmd / powershell
+     command lines are split by spec-side readers; the remote command is compared byte for byte with the model's pycmd
+     (Model/ShQuote.v) and the model's sh_words with shlex.split; half of part C's real-server runs go through this path."""
 import hashlib
 import importlib.machinery
 import importlib.util
@@ -40,7 +46,9 @@ RULE = ("module tables x option sets x segmentations: real and generated module 
         "the assembler source — the real assembler with comment lines of 2-, 3- and 4-byte characters inserted at a line boundary), option values among bool/int/None/resolver strings (plus out-of-fragment "
         "strings checked by the implementation-only oracle), uploads cut whole / 1-byte dribble / fixed 2..70000 / random / exactly "
         "at and one byte around every framing boundary, malformed uploads (truncated, bad length line, non-ASCII name, unknown "
-        "parent, early blank name, trailing bytes); a case is non-trivial when at least one module body crosses a piece boundary "
+        "parent, early blank name, trailing bytes); remote command lines: destination forms x --python (none, name, path with blanks) x "
+        "--ssh-cmd forms x delimiter on/off x remote shell (posix/cmd/powershell) x verbosity x assembler length x remote host kinds "
+        "(python3+python, python3 only, python only, python3 -V failing, none) x login shell (dash, bash); a case is non-trivial when at least one module body crosses a piece boundary "
         "or the stream is malformed; distinct by (table hash, options, cutting)")
 TRUSTED_BASE = [
     "zlib: NOT verified — Section hypothesis `sync_flush_law` (decompressing compress(x)+flush(Z_SYNC_FLUSH) of the k-th chunk on the shared stream yields exactly x); exercised with real zlib in part C",
@@ -49,6 +57,9 @@ TRUSTED_BASE = [
     "harness: fake Popen / socketpair shim / stand-in zlib module / sitecustomize prelude in a scratch directory (the one-liner and assembler.py themselves run unmodified); "
     "module sources are files in a scratch directory found through a redirected importlib.util.find_spec (get_module_source, empackage and connect run unmodified); "
     "a non-ASCII assembler source is the real assembler.py plus comment lines",
+    "remote command lines: stand-in ssh / sshpass / interpreter programs (sh scripts in a scratch directory: option parsing and the joining of command words as OpenSSH does it; "
+    "the remote login shell and /bin/sh are the real dash and bash); cmd.exe and PowerShell word splitting are small spec-side readers in harness/props/c18.py (double quotes / backtick escapes only)",
+    "modelled, not verified: the POSIX shell's quoting rules (XCU 2.2) for the fragment blanks / single quotes / double quotes / backslash (Model/ShQuote.v sh_scan; compared with shlex.split and exercised against dash and bash on every run)",
 ]
 ASSUMPTIONS = [
     "a blocking wfile.write() on the ssh socket transfers the whole buffer (ssh.connect ignores the return value)",
@@ -234,10 +245,12 @@ class FakePopen(object):
 class Boundary(object):
     """installs the simulated boundary around sshuttle.ssh; use as a context manager"""
 
-    def __init__(self, srcs=None, stub_zlib=False, verbose=0):
+    def __init__(self, srcs=None, stub_zlib=False, verbose=0, bindir=None):
         self.srcs = srcs
         self.stub_zlib = stub_zlib
         self.verbose = verbose
+        self.bindir = bindir        # directory holding the stand-in `ssh` / `sshpass` programs (remote cases)
+        self.sshpass = None         # SSHPASS as the started process would inherit it
         self.packaged = []          # (name, bytes of the file the real get_module_source was pointed at), in lookup order
         self.sock = None
         self.proc = None
@@ -250,6 +263,10 @@ class Boundary(object):
         import sshuttle.helpers as helpers
         self.ssh, self.helpers = ssh, helpers
         self.old = (ssh.ssubprocess, ssh.importlib, ssh.socket, ssh.zlib, helpers.verbose, helpers.log)
+        self.old_env = (os.environ.get("PATH"), os.environ.get("SSHPASS"))
+        os.environ.pop("SSHPASS", None)
+        if self.bindir:
+            os.environ["PATH"] = self.bindir + os.pathsep + (self.old_env[0] or "")
         helpers.log = lambda s: None
         me = self
         # the module sources of this table as real files; the REAL get_module_source reads them
@@ -285,6 +302,7 @@ class Boundary(object):
         shim.util = util
 
         def popen(argv, **kw):
+            me.sshpass = os.environ.get("SSHPASS")       # no env= in the call: the child inherits os.environ
             me.proc = FakePopen(argv, **kw)
             return me.proc
 
@@ -307,6 +325,11 @@ class Boundary(object):
     def __exit__(self, *a):
         ssh, helpers = self.ssh, self.helpers
         (ssh.ssubprocess, ssh.importlib, ssh.socket, ssh.zlib, helpers.verbose, helpers.log) = self.old
+        for k, v in zip(("PATH", "SSHPASS"), self.old_env):
+            if v is None:
+                os.environ.pop(k, None)
+            else:
+                os.environ[k] = v
         if self.srcdir is not None:
             shutil.rmtree(self.srcdir, ignore_errors=True)
         if self.proc is not None:
@@ -318,12 +341,18 @@ class Boundary(object):
                 pass
 
 
-def real_connect(options, srcs=None, stub_zlib=False, verbose=0):
-    """-> (argv, [write payloads], packaged [(name, data)]) from the real ssh.connect"""
-    with Boundary(srcs, stub_zlib, verbose) as bd:
-        p, rfile, wfile = bd.ssh.connect(None, None, None, None, False, None, options)
+def real_connect(options, srcs=None, stub_zlib=False, verbose=0, remote=None, bindir=None):
+    """-> (argv, [write payloads], packaged [(name, data)]) from the real ssh.connect.
+    remote = None (no -r: the server is started locally) or dict(rhostport, python, ssh_cmd, delim, shell):
+    the arguments client._main passes on from the command line; real_connect.sshpass is then the SSHPASS
+    value the started process would have inherited"""
+    with Boundary(srcs, stub_zlib, verbose, bindir) as bd:
+        r = remote or {}
+        p, rfile, wfile = bd.ssh.connect(r.get("ssh_cmd"), r.get("rhostport"), r.get("python"), None,
+                                         bool(r.get("delim", False)), r.get("shell"), options)
         rfile.close()
         wfile.close()
+        real_connect.sshpass = bd.sshpass
         return bd.proc.argv, list(bd.sock.rec), list(bd.packaged)
 
 
@@ -343,7 +372,7 @@ class Scratch(object):
         shutil.rmtree(self.dir, ignore_errors=True)
 
 
-def run_child(scr, argv, pieces, sleeps=(), stub_zlib=False, wait_sync=False, timeout=20):
+def run_child(scr, argv, pieces, sleeps=(), stub_zlib=False, wait_sync=False, timeout=20, extra_env=None):
     """feed `pieces` to the one-liner's stdin (a socket, as in ssh.connect), then close.
     -> dict(rc, out, err, log)"""
     scr.n += 1
@@ -352,6 +381,8 @@ def run_child(scr, argv, pieces, sleeps=(), stub_zlib=False, wait_sync=False, ti
            "PYTHONDONTWRITEBYTECODE": "1", "PYTHONHASHSEED": "0", "LANG": "C.UTF-8"}
     if stub_zlib:
         env["C18_FAKE_ZLIB"] = STUB_ZLIB
+    if extra_env:
+        env.update(extra_env)
     a, b = socket.socketpair()
     p = subprocess.Popen(argv, stdin=b.fileno(), stdout=subprocess.PIPE, stderr=subprocess.PIPE, env=env,
                          close_fds=True, cwd=scr.dir)
@@ -432,6 +463,203 @@ def crash_class(res):
         return None
     last = lines[-1]
     return last.split(":")[0].strip().split(".")[-1]
+
+
+# ---------------------------------------------------------------------------
+# the remote command line: stand-ins for ssh / sshpass / the remote host's shell and interpreters
+#
+# `ssh [options] destination [--] words...` joins the words with blanks and the remote sshd hands that ONE
+# string to the user's login shell (`$SHELL -c string`): the stand-in does exactly that with a real
+# /bin/dash or /bin/bash, on a PATH that holds only the "remote host's" interpreters.  Everything between
+# the argv ssh.connect builds and the interpreter's own argv is therefore done by real shells.
+
+FAKE_SSH = r"""#!/bin/sh
+# stand-in for OpenSSH's client (harness/props/c18.py): options, destination, options again, [--], command words
+log="$C18_SSH_LOG"
+: > "$log.opts"
+host=
+while [ $# -gt 0 ]; do
+  case "$1" in
+    --) shift; break;;
+    -p|-o|-i|-l|-F|-E|-J|-L|-R|-D|-b|-c|-e|-m|-O|-Q|-S|-W|-w|-B|-I)
+       printf '%s %s\n' "$1" "$2" >> "$log.opts"; shift 2;;
+    -*) printf '%s\n' "$1" >> "$log.opts"; shift;;
+    *) if [ -z "$host" ]; then host="$1"; shift; else break; fi;;
+  esac
+done
+printf '%s' "$0" > "$log.prog"
+printf '%s' "$host" > "$log.dest"
+printf '%s' "$*" > "$log.cmd"
+if [ "${SSHPASS+set}" = set ]; then printf '%s' "$SSHPASS" > "$log.env_sshpass"; fi
+PATH="$C18_REMOTE_PATH"; export PATH
+exec "$C18_LOGIN_SHELL" -c "$*"
+"""
+
+FAKE_SSHPASS = r"""#!/bin/sh
+# stand-in for sshpass: `sshpass -e command...` takes the password from $SSHPASS
+[ "$1" = "-e" ] || exit 64
+shift
+if [ "${SSHPASS+set}" = set ]; then printf '%s' "$SSHPASS" > "$C18_SSH_LOG.sshpass"; else exit 65; fi
+exec "$@"
+"""
+
+# a remote interpreter that only records how it was started (name, argv NUL-separated)
+FAKE_PY_REC = r"""#!/bin/sh
+if [ "$1" = "-V" ]; then echo "Python 3.99.0 (stand-in)"; exit %(vrc)d; fi
+printf '%%s' "$0" > "$C18_SSH_LOG.py_name"
+: > "$C18_SSH_LOG.py_argv"
+for a in "$@"; do printf '%%s\0' "$a" >> "$C18_SSH_LOG.py_argv"; done
+exit 0
+"""
+
+# a remote interpreter that records and then IS a real interpreter
+FAKE_PY_REAL = r"""#!/bin/sh
+if [ "$1" = "-V" ]; then exec %(exe)s -V; fi
+printf '%%s' "$0" > "$C18_SSH_LOG.py_name"
+: > "$C18_SSH_LOG.py_argv"
+for a in "$@"; do printf '%%s\0' "$a" >> "$C18_SSH_LOG.py_argv"; done
+exec %(exe)s "$@"
+"""
+
+
+def _script(path, text):
+    os.makedirs(os.path.dirname(path), exist_ok=True)
+    with open(path, "w") as f:
+        f.write(text)
+    os.chmod(path, 0o755)
+
+
+class RemoteWorld(object):
+    """scratch directories: bin/ (ssh, myssh, sshpass as found through PATH by ssh.connect's which()),
+    and one directory per kind of remote host: which interpreters its PATH holds"""
+    HOSTS = ["py3+py", "py3only", "pyonly", "py3broken+py", "none"]
+
+    def __init__(self, scr):
+        import shlex
+        self.root = os.path.join(scr.dir, "remote")
+        self.bin = os.path.join(self.root, "bin")
+        for n in ("ssh", "myssh"):
+            _script(os.path.join(self.bin, n), FAKE_SSH)
+        _script(os.path.join(self.bin, "sshpass"), FAKE_SSHPASS)
+        exe = shlex.quote(sys.executable)
+        self.custom = os.path.join(self.root, "opt dir", "py 3")      # --python with blanks in the path
+        self.paths = {}
+        for kind in ("rec", "real"):
+            tpl = FAKE_PY_REC if kind == "rec" else FAKE_PY_REAL
+            for host in self.HOSTS:
+                d = os.path.join(self.root, kind, host.replace("+", "_"))
+                os.makedirs(d, exist_ok=True)
+                self.paths[(kind, host)] = d
+                names = {"py3+py": [("python3", 0), ("python", 0)], "py3only": [("python3", 0)], "pyonly": [("python", 0)],
+                         "py3broken+py": [("python3", 1), ("python", 0)], "none": []}[host]
+                for n, vrc in names + [("mypy", 0)]:
+                    _script(os.path.join(d, n), tpl % {"vrc": vrc, "exe": exe})
+            _script(self.custom + ("" if kind == "rec" else ".real"), tpl % {"vrc": 0, "exe": exe})
+        self.n = 0
+
+    def expected_interpreter(self, host, python, kind="rec"):
+        """path of the interpreter the manual promises ('python3 (or python, if python3 fails)' / --python), or None"""
+        d = self.paths[(kind, host)]
+        if python is not None:
+            pth = python if os.path.isabs(python) else os.path.join(d, python)
+            return pth if os.path.exists(pth) else None      # --python naming something the host does not have
+        return {"py3+py": os.path.join(d, "python3"), "py3only": os.path.join(d, "python3"), "pyonly": os.path.join(d, "python"),
+                "py3broken+py": os.path.join(d, "python"), "none": None}[host]
+
+    def env(self, host, login_shell, sshpass, kind="rec"):
+        self.n += 1
+        log = os.path.join(self.root, "log%d" % self.n)
+        e = {"PATH": self.bin + os.pathsep + "/usr/bin:/bin", "C18_SSH_LOG": log, "C18_LOGIN_SHELL": login_shell,
+             "C18_REMOTE_PATH": self.paths[(kind, host)]}
+        if sshpass is not None:
+            e["SSHPASS"] = sshpass
+        return e, log
+
+    @staticmethod
+    def read_log(log):
+        out = {}
+        for k in ("opts", "prog", "dest", "cmd", "env_sshpass", "sshpass", "py_name", "py_argv"):
+            pth = log + "." + k
+            if os.path.exists(pth):
+                with open(pth, "rb") as f:
+                    out[k] = f.read()
+                os.unlink(pth)
+        if "py_argv" in out:
+            out["py_argv"] = [a.decode("utf-8", "replace") for a in out["py_argv"].split(b"\0")[:-1]]
+        for k in ("prog", "dest", "cmd", "env_sshpass", "sshpass", "py_name", "opts"):
+            if k in out:
+                out[k] = out[k].decode("utf-8", "replace")
+        return out
+
+
+def spec_oneliner(verbose, nbytes):
+    """the bootstrap program (spec side): read exactly the assembler's bytes from a binary stdin, run them, exit 98"""
+    return ("import sys, os; verbosity=%d; stdin = os.fdopen(0, 'rb'); exec(compile(stdin.read(%d), 'assembler.py', 'exec')); "
+            "sys.exit(98);" % (verbose or 0, nbytes))
+
+
+def cmd_exe_words(line):
+    """words of a command line the way cmd.exe /c + the C runtime split it, for lines without backslashes:
+    blanks separate, double quotes group and are removed; -> list or None when cmd.exe itself would interpret something"""
+    words, cur, inq, have = [], "", False, False
+    for ch in line:
+        if ch == '"':
+            inq, have = not inq, True
+        elif ch in " \t" and not inq:
+            if have:
+                words.append(cur)
+            cur, have = "", False
+        elif ch in "%^\\" or (ch in "&|<>()" and not inq):
+            return None
+        else:
+            cur, have = cur + ch, True
+    if inq:
+        return None
+    if have:
+        words.append(cur)
+    return words
+
+
+def powershell_words(line):
+    """words of a PowerShell command line made of bare words: a backtick makes the next character literal, an
+    unescaped blank separates; -> list, or None when an unescaped character PowerShell interprets is left"""
+    words, cur, have, i = [], "", False, 0
+    while i < len(line):
+        ch = line[i]
+        if ch == "`":
+            if i + 1 >= len(line):
+                return None
+            cur, have = cur + line[i + 1], True
+            i += 2
+            continue
+        if ch in " \t":
+            if have:
+                words.append(cur)
+            cur, have = "", False
+        elif ch in "'\";(),{}|&<>@#$":
+            return None
+        else:
+            cur, have = cur + ch, True
+        i += 1
+    if have:
+        words.append(cur)
+    return words
+
+
+def run_remote_argv(rw, argv, host, login_shell, sshpass, timeout=20):
+    """start what ssh.connect asked Popen to start (stdin at EOF), on the stand-in ssh / remote host"""
+    env, log = rw.env(host, login_shell, sshpass)
+    try:
+        p = subprocess.run(argv, stdin=subprocess.DEVNULL, stdout=subprocess.PIPE, stderr=subprocess.PIPE, env=env,
+                           timeout=timeout, close_fds=True)
+        rc, out, err = p.returncode, p.stdout, p.stderr
+    except subprocess.TimeoutExpired:
+        rc, out, err = "timeout", b"", b""
+    except OSError as e:
+        rc, out, err = "oserror:%s" % e.errno, b"", b""
+    obs = rw.read_log(log)
+    obs.update(rc=rc, out=out[:200].decode("utf-8", "replace"), err=err[-300:].decode("utf-8", "replace"))
+    return obs
 
 
 # ---------------------------------------------------------------------------
@@ -785,9 +1013,13 @@ def bootstrap_case(ctx, scr, case, rng):
     how = case["how"]
     stub = mode == "stub"
     real_server = case.get("real_server", False)     # every module but (possibly) the assembler is the shipped source
-    argv, writes, packaged = real_connect(options, srcs, stub_zlib=stub, verbose=case.get("verbose", 0))
+    remote, rw = case.get("remote"), case.get("rw")      # -r given: the command goes through ssh and the remote shell
+    argv, writes, packaged = real_connect(options, srcs, stub_zlib=stub, verbose=case.get("verbose", 0), remote=remote,
+                                          bindir=rw.bin if remote else None)
     info = {"mode": mode, "how": how, "options": opts_canon(options),
             "sources": [(n, len(d), sha(d)[:16]) for n, d in packaged]}
+    if remote:
+        info["remote"] = dict(remote, host=case["rhost"], login_shell=case["login_shell"])
     if len(writes) != 2:
         ctx.violation("ssh.connect did not write exactly (assembler, packages)", dict(info, writes=len(writes)))
         return
@@ -800,12 +1032,34 @@ def bootstrap_case(ctx, scr, case, rng):
     extra = case.get("extra", b"")
     pieces = cut(rng, upload + extra, how, len(writes[0]))
     sleeps = set(rng.randrange(len(pieces)) for _ in range(min(6, len(pieces)))) if len(pieces) > 1 else ()
-    res = run_child(scr, argv, pieces, sleeps, stub_zlib=stub, wait_sync=real_server)
+    extra_env = rlog = None
+    if remote:
+        extra_env, rlog = rw.env(case["rhost"], case["login_shell"], real_connect.sshpass, kind="real")
+    res = run_child(scr, argv, pieces, sleeps, stub_zlib=stub, wait_sync=real_server, extra_env=extra_env)
     timed_out = "timeout" if res["rc"] == "timeout" else None
+    boot_text = argv[2] if len(argv) == 3 and argv[1] == "-c" else ""
+    if remote:
+        # what the remote host's shell really started: the interpreter the manual promises, with the one-liner
+        robs = rw.read_log(rlog)
+        ctx.count("boot_through_ssh_and_%s" % os.path.basename(case["login_shell"]))
+        pyargs = robs.get("py_argv") or []
+        boot_text = pyargs[1] if len(pyargs) == 2 and pyargs[0] == "-c" else ""
+        want_py = rw.expected_interpreter(case["rhost"], remote.get("python"), kind="real")
+        want_boot = spec_oneliner(case.get("verbose", 0), len(dict(packaged).get("sshuttle.assembler", b"")))
+        if robs.get("py_name") != want_py or pyargs != ["-c", want_boot]:
+            ctx.violation("the remote shell does not start the documented interpreter (python3, or python if python3 fails; "
+                          "--python if given) with the bootstrap one-liner as its only program text",
+                          dict(info, replay_case={"mode": mode, "how": how, "seed": case.get("seed"), "profile": case.get("profile")},
+                               remote_command=argv[-1][:600], started=robs.get("py_name"),
+                               started_argv=[a[:300] for a in pyargs], expected_interpreter=want_py, expected_argv=["-c", want_boot],
+                               verbose=case.get("verbose", 0), stderr=res["err"][-300:].decode("utf-8", "replace")))
+        if remote.get("python") is None:
+            # `$P -V` of the candidate test prints the interpreter's version on the connection first; the client's
+            # handshake skips everything up to the first NUL
+            res["out"] = re.sub(rb"\APython \d+[^\n]*\n", b"", res["out"])
     asm_obs, mods_obs = observed_modules(res)
     opts_obs = observed_options(res)
     if case.get("profile", "").startswith("nbytes"):
-        import re
         for ln in re.findall(rb"\n(\d+)\n", writes[1][:200]):
             ctx.count("first_length_line_%s" % ln.decode())
             break
@@ -863,8 +1117,7 @@ def bootstrap_case(ctx, scr, case, rng):
     tbl = tbl_token(packaged)
     up = ctx.run_driver(["UPLOAD %s %s" % (tbl, opts_token(options))])[0].split(" ")
     m_c1, m_c2, m_len, m_ok = unhx(up[0]), unhx(up[1]), int(unhx(up[2])), up[3]
-    pyscript = argv[2] if len(argv) == 3 else ""
-    if "stdin.read(%d)" % m_len not in pyscript or argv[1:2] != ["-c"]:
+    if "stdin.read(%d)" % m_len not in boot_text:
         ctx.disagree("bootstrap one-liner", info, argv[1:], "stdin.read(%d)" % m_len)
     if stub:
         if (m_c1, m_c2) != (writes[0], writes[1]):
@@ -995,7 +1248,7 @@ def part_packaging(ctx):
             ctx.disagree("eval_options", txt.decode(), back, e)
 
 
-def part_bootstrap(ctx, scr):
+def part_bootstrap(ctx, scr, rw=None):
     rng = ctx.rng
     quick = ctx.quick()
     # what the client's handshake accepts: two NULs, then client._main's `expected`
@@ -1010,6 +1263,14 @@ def part_bootstrap(ctx, scr):
         cases.append({"mode": "real", "srcs": {"sshuttle.assembler": assembler_with_comments(rng, extra=1 if i == 1 else None)} if i % 3 == 1 else None,
                       "real_server": True, "how": how, "sync": sync, "verbose": rng.choice([0, 1, 2]),
                       "options": dict(gen_options(rng, full=True), auto_hosts=False, auto_nets=False)})
+        if rw is not None and i % 2 == 0:
+            # the same run with -r: ssh (stand-in) -> login shell (real) -> /bin/sh -c ... (real) -> interpreter
+            py = [None, "mypy", rw.custom + ".real", None][(i // 2) % 4]
+            cases[-1].update(rw=rw, login_shell=["/bin/dash", "/bin/bash"][(i // 2) % 2],
+                             rhost=["py3+py", "pyonly", "py3broken+py", "py3only"][(i // 2) % 4] if py is None else "py3+py",
+                             remote={"rhostport": rng.choice(["user@host", "host:2222", "u:secret@[2001:db8::1]:22"]), "python": py,
+                                     "ssh_cmd": rng.choice([None, "ssh -v", "myssh -o 'ProxyCommand=nc %h %p'"]),
+                                     "delim": i % 4 == 0, "shell": None})
     # generated sources, real zlib
     plan = [("tiny", "dribble"), ("tiny", "bounds3"), ("small", "dribble"), ("small", "random"), ("small", "bounds-1"),
             ("medium", "fixed4096"), ("medium", "random"), ("medium", "bounds+1"), ("medium", "dribble"),
@@ -1140,6 +1401,132 @@ def part_malformed(ctx, scr):
                              [m_status, [(n, l, s[:12]) for n, l, s in model[1]]])
             if run[0] != run[1]:
                 ctx.disagree("remote_run (chunks) vs remote_spec (stream)", {"what": desc, "cut": how}, run[0][-200:], run[1][-200:])
+
+
+REMOTE_VIOLATION = ("the remote shell does not start the documented interpreter (python3, or python if python3 fails; "
+                    "--python if given) with the bootstrap one-liner as its only program text")
+
+
+def remote_case(ctx, rw, c):
+    """one remote command line: the REAL ssh.connect builds the argv; posix: the argv is started on the stand-in ssh /
+    remote host and what the remote shell started is observed; cmd / powershell: the command line is split by the
+    spec-side readers.  -> list of (what, replay) failures (implementation-only oracle)"""
+    python = rw.custom if c["python"] == "@custom" else c["python"]      # a path with blanks inside the scratch directory
+    remote = {"rhostport": c["rhostport"], "python": python, "ssh_cmd": c["ssh_cmd"], "delim": c["delim"], "shell": c["shell"]}
+    srcs = dict((k, bytes.fromhex(v)) for k, v in c["srcs_hex"].items())
+    options = c["options"]
+    argv, writes, packaged = real_connect(options, srcs, stub_zlib=True, verbose=c["verbose"], remote=remote, bindir=rw.bin)
+    a_src = dict(packaged)["sshuttle.assembler"]
+    script = spec_oneliner(c["verbose"], len(a_src))
+    fails = []
+    rep = {"kind": "remote", "case": c, "remote_command": argv[-1][:700], "argv_head": argv[:-1], "expected_program_text": script}
+    if (len(argv) >= 2 and argv[-2] == "--") != bool(c["delim"]):
+        fails.append(("the '--' delimiter in front of the remote command does not follow --no-cmd-delimiter", rep))
+    if c["shell"] in ("cmd", "powershell"):
+        words = (cmd_exe_words if c["shell"] == "cmd" else powershell_words)(argv[-1])
+        want = [python or "python", "-c", script]
+        ctx.count("remote_%s_command_lines" % c["shell"])
+        if words != want:
+            fails.append((REMOTE_VIOLATION, dict(rep, words_seen_by_the_remote_shell=words, expected_words=want)))
+        return fails, argv
+    obs = run_remote_argv(rw, argv, c["host"], c["login_shell"], real_connect.sshpass)
+    want_py = rw.expected_interpreter(c["host"], python)
+    ctx.count("remote_posix_host_%s" % c["host"])
+    ctx.count("remote_posix_login_shell_%s" % os.path.basename(c["login_shell"]))
+    ctx.count("remote_posix_python_%s" % ("default" if c["python"] is None else "given"))
+    rep = dict(rep, started=obs.get("py_name"), started_argv=[a[:400] for a in obs.get("py_argv") or []], exit_status=obs["rc"],
+               stderr=obs["err"], expected_interpreter=want_py)
+    if obs.get("cmd") != argv[-1] or not obs.get("dest"):
+        fails.append(("the stand-in ssh did not receive a destination and the remote command as its last word", rep))
+    elif want_py is None:
+        # no interpreter on the remote PATH: nothing can be started; the shell's status is what the client diagnoses
+        if obs.get("py_name") is not None or obs["rc"] in (0, "timeout"):
+            fails.append(("a remote host without python3/python: the remote command reports success or starts something else", rep))
+    elif obs.get("py_name") != want_py or obs.get("py_argv") != ["-c", script]:
+        fails.append((REMOTE_VIOLATION, rep))
+    return fails, argv
+
+
+def gen_remote_cases(ctx, rw):
+    rng = ctx.rng
+    quick = ctx.quick()
+    asm_real = real_source_bytes("sshuttle.assembler")
+    small = dict((k, ("# %s\n" % k).encode()) for k in SRCNAMES)
+    dests = ["host", "user@host", "user:pw@host:2222", "[::1]:22", "u@2001:db8::1", "ho-st.example.com:22"]
+    ssh_cmds = [None, "ssh", "ssh -v", "myssh -o 'ProxyCommand=nc %h %p' -F /dev/null", "ssh -i '/home/u/my key'"]
+    out = []
+
+    def add(**kw):
+        c = {"rhostport": "user@host", "python": None, "ssh_cmd": None, "delim": True, "shell": None, "verbose": 0,
+             "host": "py3+py", "login_shell": "/bin/dash", "options": gen_options(rng, full=True)}
+        c.update(kw)
+        srcs = dict(small)
+        k = rng.random()
+        srcs["sshuttle.assembler"] = asm_real if k < 0.4 else assembler_with_comments(rng) if k < 0.7 else \
+            gen_source(rng, "ascii", rng.choice([0, 1, 9, 10, 99, 100, 999, 1000, 9999, 10000]))
+        c["srcs_hex"] = dict((n, d.hex()) for n, d in srcs.items())
+        out.append(c)
+    # every kind of remote host x both login shells x default interpreter / --python
+    for host in RemoteWorld.HOSTS:
+        for sh in ("/bin/dash", "/bin/bash"):
+            add(host=host, login_shell=sh, verbose=rng.randint(0, 3))
+            add(host=host, login_shell=sh, python=rng.choice(["python3", "python", "mypy", "@custom"]), verbose=rng.randint(0, 3))
+    for py in (None, "mypy", "@custom"):
+        for delim in (True, False):
+            for shell in (None, "sh", "bash"):
+                add(python=py, delim=delim, shell=shell, ssh_cmd=rng.choice(ssh_cmds), rhostport=rng.choice(dests))
+    for shell in ("cmd", "powershell"):
+        for py in (None, "python3", "py"):
+            for v in (0, 1, 2, 3):
+                add(shell=shell, python=py, verbose=v, delim=rng.random() < 0.5, rhostport=rng.choice(dests))
+    for _ in range(40 if quick else 1500):
+        shell = rng.choice([None, None, None, "sh", "cmd", "powershell"])
+        py = rng.choice([None, None, "python3", "python", "mypy", "@custom"]) if shell not in ("cmd", "powershell") else \
+            rng.choice([None, "python3", "py"])
+        host = rng.choice(RemoteWorld.HOSTS)
+        if py in ("python3", "python") and not os.path.exists(os.path.join(rw.paths[("rec", host)], py)):
+            host = "py3+py"
+        add(rhostport=rng.choice(dests), python=py, ssh_cmd=rng.choice(ssh_cmds), delim=rng.random() < 0.7, shell=shell,
+            verbose=rng.choice([0, 0, 1, 2, 3, 7, 12]), host=host, login_shell=rng.choice(["/bin/dash", "/bin/bash"]))
+    return out
+
+
+def part_remote(ctx, scr):
+    """-r given: the argv of the real ssh.connect, started for real on a stand-in ssh whose remote side is a real
+    POSIX shell (dash and bash) over hosts with python3+python / only one of them / a python3 that fails / none"""
+    rw = RemoteWorld(scr)
+    cases = gen_remote_cases(ctx, rw)
+    lines = []
+    for c in cases:
+        fails, argv = remote_case(ctx, rw, c)
+        a_len = len(bytes.fromhex(c["srcs_hex"]["sshuttle.assembler"]))
+        ctx.case(("remote", c["rhostport"], c["python"], c["ssh_cmd"], c["delim"], c["shell"], c["verbose"], c["host"],
+                  c["login_shell"], a_len), nontrivial=True,
+                 sample={"kind": "remote command", "shell": c["shell"] or "posix", "python": c["python"], "remote_host": c["host"],
+                         "login_shell": c["login_shell"], "remote_command": argv[-1][:160]} if len(lines) in (0, 7) else None)
+        for what, rep in fails:
+            ctx.violation(what, rep)
+        kind = {"cmd": "cmd", "powershell": "ps"}.get(c["shell"], "py" if c["python"] else "sh")
+        py = rw.custom if c["python"] == "@custom" else c["python"]
+        lines.append(("PYCMD %s %s %s %s" % (kind, hx((py or "").encode()), numhex(c["verbose"]), numhex(a_len)), c, argv))
+    out = ctx.run_driver([l for l, _, _ in lines])
+    for (ln, c, argv), o in zip(lines, out):
+        if unhx(o) != argv[-1].encode():
+            ctx.disagree("remote command line (pycmd)", dict((k, c[k]) for k in ("python", "shell", "verbose")), argv[-1][:400],
+                         unhx(o).decode("latin-1")[:400])
+    # the model's reading of a POSIX command line against the stdlib's (shlex in POSIX mode), on the outer command
+    import shlex
+    posix = [argv[-1] for _, c, argv in lines if c["shell"] not in ("cmd", "powershell")]
+    out = ctx.run_driver(["SHWORDS %s" % hx(t.encode()) for t in posix])
+    for t, o in zip(posix, out):
+        want = "NONE"
+        try:
+            want = ",".join(hx(w.encode()) for w in shlex.split(t)) or "_"
+        except ValueError:
+            pass
+        if o != want and not (o == "NONE" and "$" in t):
+            ctx.disagree("sh_words vs shlex.split", t[:300], want[:300], o[:300])
+    return rw
 
 
 class StopLoop(Exception):
@@ -1311,7 +1698,8 @@ def correspondence(ctx):
         part_packaging(ctx)
         part_client(ctx)
         part_malformed(ctx, scr)
-        part_bootstrap(ctx, scr)
+        rw = part_remote(ctx, scr)
+        part_bootstrap(ctx, scr, rw)
         srv = ctx.run_driver(["SERVER %s" % numhex(0), "SERVER %s" % numhex(32768), "SYNC"])
         if not (srv[0].split("|")[1].strip() == srv[1].split("|")[1].strip() == srv[2].split(" ")[0]):
             ctx.disagree("server_main_start stdout", "SERVER", srv[2], srv[:2])
@@ -1335,6 +1723,16 @@ def replay(ctx, rp):
         print("assembler source: %d bytes, %d characters; first write: %d bytes" % (len(a), len(a.decode("utf-8", "replace")), len(writes[0])))
         check_read_len(ctx, argv, writes, packaged, r["options_json"], srcs, "replay")
         return len(ctx.violations) > before
+    if r.get("kind") == "remote" and "case" in r:
+        scr = Scratch()
+        try:
+            fails, argv = remote_case(ctx, RemoteWorld(scr), r["case"])
+        finally:
+            scr.close()
+        print("remote command:", argv[-1][:300])
+        for what, rep in fails:
+            print("FAILS:", what, "| started:", rep.get("started"), rep.get("started_argv"), "| words:", rep.get("words_seen_by_the_remote_shell"))
+        return bool(fails)
     if "replay_case" in r:
         import random
         rc = r["replay_case"]
@@ -1346,7 +1744,7 @@ def replay(ctx, rp):
             part_packaging(ctx)
             part_client(ctx)
             part_malformed(ctx, scr)
-            part_bootstrap(ctx, scr)
+            part_bootstrap(ctx, scr, part_remote(ctx, scr))
         finally:
             scr.close()
         return len(ctx.violations) > before
